@@ -898,8 +898,30 @@ class _Rewrite(ast.NodeTransformer):
                     ast.Call(ast.Name("__sym_join__", ast.Load()), [f.value] + node.args, node.keywords), node)
         return node
 
+    def visit_Compare(self, node):
+        self.generic_visit(node)
+        if len(node.ops) == 1 and isinstance(node.ops[0], (ast.In, ast.NotIn)):
+            call = ast.Call(ast.Name("__sym_in__", ast.Load()), [node.left, node.comparators[0]], [])
+            if isinstance(node.ops[0], ast.NotIn):
+                call = ast.UnaryOp(ast.Not(), call)
+            return ast.copy_location(call, node)
+        return node
 
-INJECTED = {"__sym_format__": sym_format, "__sym_join__": sym_join,
+
+def sym_in(a, b):
+    """`a in b`; only differs from the builtin when b is a real str and a is a proxy
+    (str.__contains__ rejects non-str operands before any reflected hook can run)"""
+    if isinstance(b, str) and isinstance(a, SymTok):
+        return bool(a.pointwise(lambda s: s in b))
+    if isinstance(b, str) and isinstance(a, SymStr):
+        if len(a.cells) == 1 and isinstance(a.cells[0], tuple):
+            sl, o = a.cells[0]
+            return _eng().branch(sl.cond_in([i for i, alt in enumerate(sl.alts) if alt[o] in b]))
+        return a.concrete() in b
+    return a in b
+
+
+INJECTED = {"__sym_format__": sym_format, "__sym_join__": sym_join, "__sym_in__": sym_in,
             "min": sym_min, "max": sym_max, "isinstance": sym_isinstance,
             "str": sym_str, "int": sym_int}
 
